@@ -57,7 +57,7 @@ impl Property for C05 {
             real: &["src/hot_reloading/{mod,paths,dependencies,records}.rs", "src/anycache.rs (recording, reload_untyped)", "src/asset.rs (load_and_record)", "src/entry.rs (write)"],
             stub: &["channels, Select, Mutex/Condvar, RwLock (detsim)", "Source (in-memory, versioned contents; the harness owns the EventSender)", "notification delivery (fault layer: batched, duplicated, from another thread, noise, never sent)"],
             assumptions: &["plain barrier = every notification was sent (happens-before) before hot_reload was invoked; static barrier = the simulator observes global quiescence after enhance_hot_reloading"],
-            runs: (20_000, 1_000_000),
+            runs: (80_000, 2_500_000),
         }
     }
     fn generate(&self, g: &mut SplitMix, k: &mut SplitMix, _tier: Tier) -> (Knobs, Value) {
